@@ -343,6 +343,39 @@ def run(ck):
             cj = [c for c in p.calls if c[0].endswith("cplx.conjugate")]
             ok = len(kc) == 2 and len(cj) == 1 and argp(kc[0][5], 0) is argp(kc[1][5], 0) and cj[0][7].get("x") == kc[0][6] and argp(kc[1][7], 1) == cj[0][6]
             ck.check(bool(ok), "C04.R4", "rotate_rho = U (U rho)^dagger", rr.site(), "rotate_rho is not sweep -> conjugate transpose -> sweep with the same unitaries")
+    # ------------------------------------------------------------------ R2 siblings: the plain result is the first of the extras
+    # (the rules above read the internals through include_extras=True; the call form users and KL / NLL / gradients use is
+    # include_extras=False - both forms must be the same value on the same inputs)
+    for fname, cls in (("rotate_psi_inner_prod", "ComplexWaveFunction"), ("rotate_rho_probs", "DensityMatrix")):
+        fn_ = prog.func(U, fname)
+        inst = fname + ":include_extras=False equals the first extra"
+        with ck.guard("C04.R2", inst, fn_.site()):
+            def ths(it, cls=cls, fn_=fn_):
+                s = make_state(it, cls)
+                b, st = api.basis_str(it), tens(it, "states", ("B", "nv"))
+                full = it.call_function(VFunc(fn_), [s, b, st], {"include_extras": VConst(True)}, None)
+                plain = it.call_function(VFunc(fn_), [s, b, st], {"include_extras": VConst(False)}, None)
+                return full, plain, st
+
+            for p in returning(paths_of(prog, ths, sticky=True, max_paths=40), inst):
+                full, plain, st = p.value
+                items = p.interp.concrete_items(full)
+                t0 = items[0].term if items and isinstance(items[0], VTens) else None
+                tp = plain.term if isinstance(plain, VTens) else None
+                if t0 is None or tp is None:
+                    ck.undecided("C04.R2", inst + " [%s]" % _c(p), fn_.site(), "results are not comparable terms")
+                    continue
+                from .history import _same
+
+                if _same(tp, t0):
+                    ck.ok("C04.R2", inst + " [%s]" % _c(p), fn_.site())
+                else:
+                    sa_, sb_ = getattr(plain, "shape", None), getattr(items[0], "shape", None)
+                    definite = sa_ is not None and sb_ is not None and (len(sa_) != len(sb_) or any(x != y and "?" not in (x, y) and not str(x).startswith("nnz") and not str(y).startswith("nnz") for x, y in zip(sa_, sb_)))
+                    ck.check(False if definite else None, "C04.R2", inst + " [%s]" % _c(p), fn_.site(),
+                             "the plain call returns %s; with include_extras=True the first result is %s" % (str(tp)[:160], str(t0)[:120]))
+                wr = [e for e in p.effects if "param:states" in e.origins and e.kind == "write"]
+                ck.check(not wr, "C04.R2", fname + ":the given states are not modified [%s]" % _c(p), fn_.site(), "the caller's states are written")
     # ------------------------------------------------------------------ R5 history independence (two-call protocol)
     from .history import check_history
 
@@ -354,6 +387,16 @@ def run(ck):
             return (make_state(it, cls), api.basis_str(it), tens(it, arg, ("N" if arg == "space" else "B", "nv")))
 
         check_history(ck, "C04.R5", fname + "/" + cls, fn_.site(), mk, lambda it, c, fn_=fn_: it.call_function(VFunc(fn_), [c[0], c[1], c[2]], {}, None), max_paths=40)
+    from .history import check_after
+
+    for fname, cls in (("rotate_psi_inner_prod", "ComplexWaveFunction"), ("rotate_rho_probs", "DensityMatrix")):
+        fn_ = prog.func(U, fname)
+
+        def mk(it, cls=cls):
+            return (make_state(it, cls), api.basis_str(it), tens(it, "states", ("B", "nv")))
+
+        check_after(ck, "C04.R5", fname + " after the full Hilbert space was generated", fn_.site(), mk,
+                    lambda it, c: call(it, c[0], "generate_hilbert_space"), lambda it, c, fn_=fn_: it.call_function(VFunc(fn_), [c[0], c[1], c[2]], {}, None), max_paths=40)
     ck.require_min("C04.R5", 4)
     ck.require_min("C04.R1", 12)
     ck.require_min("C04.R2", 10)
